@@ -56,8 +56,8 @@ type recStorer struct {
 }
 
 func (s *recStorer) GetValue(n string) (*variable.Value, bool) { s.reads++; return s.inner.GetValue(n) }
-func (s *recStorer) GetValues() map[string]variable.Value       { return s.inner.GetValues() }
-func (s *recStorer) Contains(n string) bool                     { return s.inner.Contains(n) }
+func (s *recStorer) GetValues() map[string]variable.Value      { return s.inner.GetValues() }
+func (s *recStorer) Contains(n string) bool                    { return s.inner.Contains(n) }
 func (s *recStorer) SetNumberValue(n string, v float64) {
 	s.writes = append(s.writes, writeRec{n, valOfFloat(v)})
 	s.inner.SetNumberValue(n, v)
@@ -93,7 +93,7 @@ func (s *mapStorer) GetValues() map[string]variable.Value {
 	}
 	return r
 }
-func (s *mapStorer) Contains(n string) bool            { _, ok := s.m[n]; return ok }
+func (s *mapStorer) Contains(n string) bool             { _, ok := s.m[n]; return ok }
 func (s *mapStorer) SetNumberValue(n string, v float64) { s.m[n] = *variable.NewNumber(v) }
 func (s *mapStorer) SetBooleanValue(n string, v bool)   { s.m[n] = *variable.NewBoolean(v) }
 func (s *mapStorer) SetStringValue(n string, v string)  { s.m[n] = *variable.NewString(v) }
